@@ -16,7 +16,8 @@ RULE = (
     "m>n; a quarter of the `total` cases widened by 90 / 1500 Gaussian or 3000 zero columns), families grid/Gaussian/prescribed-SVD/low-rank (rank 0..min)/duplicate rows/zero rows/conflicting/"
     "stationary with O(1) entries times 10^e, e in [-12,15] (float32) / [-100,100] (float64). Scenarios: total "
     "(finite (n,) vector of the input dtype, input bitwise unchanged, also when the matrix is a transposed / row-strided / "
-    "column-strided view of a bigger buffer, with the same result as for a contiguous copy); reject (0-d/1-d/3-d tensors, NaN/+-inf at a "
+    "column-strided view of a bigger buffer, is passed under no_grad / inference_mode, requires grad itself, or has its "
+    "zeros written as -0.0 - with the same result as for a contiguous copy; a few cases with 32 or 100 rows); reject (0-d/1-d/3-d tensors, NaN/+-inf at a "
     "drawn position, row count contradicting weights/pref/leak/minimum must raise ValueError; ConFIG exempt); "
     "history (an instance that processed 1-3 other matrices - other shapes, and other dtypes where no configured vector "
     "pins the dtype, optionally all written in place into ONE reused tensor object - returns bitwise what a fresh instance "
@@ -94,12 +95,16 @@ def _case(draw):
     rng = np.random.default_rng(draw(SEEDS))
     m_min = 3 if name == "Krum" else 1
     m = draw(st.integers(m_min, 8))
+    many_rows = scenario == "total" and draw(st.sampled_from([True] + [False] * 30))
+    if many_rows:
+        m = draw(st.sampled_from([32, 100]))  # many objectives
     n = draw(st.integers(1, 10))
     spec = _draw_spec(draw, name, m, rng)
     emax_lo, emax_hi = (-12, 15) if dtype == "float32" else (-100, 100)
     e = draw(st.sampled_from([0, 0, draw(st.integers(-3, 3)), draw(st.integers(emax_lo, emax_hi)), emax_lo, emax_hi]))
     case = {"scenario": scenario, "agg": spec, "dtype": dtype, "seed": draw(st.integers(0, 2**31 - 1)), "scale_exp": e,
-            "layout": draw(st.sampled_from(["contiguous", "contiguous", "transposed", "row-strided", "col-strided"])),
+            "layout": draw(st.sampled_from(["contiguous", "contiguous", "transposed", "row-strided", "col-strided", "no_grad",
+                                            "inference_mode", "requires_grad", "negative-zeros"])),
             "extra_cols": draw(extra_cols_strategy()) if scenario == "total" else None}
     if scenario == "reject":
         if name == "ConFIG":
@@ -177,8 +182,13 @@ def _call(A, Jt, seed):
 
 
 def _with_layout(Jt, layout):
-    """Same values, another memory layout (a user may pass any strided view of a bigger buffer)."""
+    """Same values, another memory layout (a user may pass any strided view of a bigger buffer), another autograd
+    context, or zeros written as -0.0."""
     m, n = Jt.shape
+    if layout == "requires_grad":
+        return Jt.clone().requires_grad_(True)
+    if layout == "negative-zeros":
+        return torch.where(Jt == 0, torch.full_like(Jt, -0.0), Jt)
     if layout == "transposed":
         return Jt.t().contiguous().t()
     if layout == "row-strided":
@@ -258,9 +268,14 @@ def run_case(case) -> Outcome:
         # the matrix is a value: a non-contiguous view holding the same numbers must be handled (and left untouched)
         Jl = _with_layout(Jt, layout)
         out.cls("layout:" + layout)
-        rl = out.call(f"raises-on-{layout}-view:{name}", _call, aggs.make(spec, dtype), Jl, case["seed"])
+        import contextlib
+
+        ctx = torch.no_grad() if layout == "no_grad" else torch.inference_mode() if layout == "inference_mode" else contextlib.nullcontext()
+        with ctx:
+            rl = out.call(f"raises-on-{layout}-view:{name}", _call, aggs.make(spec, dtype), Jl, case["seed"])
         if rl is not RAISED:
-            out.check(torch.equal(Jl, before), f"mutates-input:{name}", f"{layout} view modified")
+            rl = rl.detach()
+            out.check(torch.equal(Jl.detach(), before), f"mutates-input:{name}", f"{layout} view modified")
             okl = tuple(rl.shape) == (n,) and rl.dtype == Jt.dtype and bool(torch.isfinite(rl).all())
             out.check(okl, f"layout-view-bad-output:{name}", f"{layout}: {rl}")
             if okl and name not in DISCONTINUOUS and bool(torch.isfinite(r).all()):
